@@ -31,20 +31,26 @@ pub fn make_cache_dir(trace: &Trace) -> PathBuf {
     d
 }
 
-pub fn apply_mtimes(trace: &Trace, dir: &Path) {
-    for (name, rel_s) in &trace.cfg.mtimes {
-        let p = dir.join(name.trim_end_matches('/'));
-        let secs = trace.cfg.clock_ms / 1000 + rel_s;
-        if let Ok(c) = std::ffi::CString::new(p.to_string_lossy().as_bytes()) {
-            let ts = [
-                libc::timespec { tv_sec: secs as libc::time_t, tv_nsec: 0 },
-                libc::timespec { tv_sec: secs as libc::time_t, tv_nsec: 0 },
-            ];
-            unsafe {
-                libc::utimensat(libc::AT_FDCWD, c.as_ptr(), ts.as_ptr(), 0);
-            }
+fn set_mtime(p: &Path, secs: i64) {
+    if let Ok(c) = std::ffi::CString::new(p.to_string_lossy().as_bytes()) {
+        let ts = [
+            libc::timespec { tv_sec: secs as libc::time_t, tv_nsec: 0 },
+            libc::timespec { tv_sec: secs as libc::time_t, tv_nsec: 0 },
+        ];
+        unsafe {
+            libc::utimensat(libc::AT_FDCWD, c.as_ptr(), ts.as_ptr(), 0);
         }
     }
+}
+
+/// Every time stamp the engine can read in the cache directory comes from the trace, none from the wall clock.
+pub fn apply_mtimes(trace: &Trace, dir: &Path) {
+    let base = trace.cfg.clock_ms / 1000;
+    for name in trace.cfg.files.keys() {
+        let rel = trace.cfg.mtimes.get(name).copied().unwrap_or(0);
+        set_mtime(&dir.join(name.trim_end_matches('/')), base + rel);
+    }
+    set_mtime(dir, base);
 }
 
 pub fn cleanup_root() {
